@@ -22,12 +22,12 @@ def run(ctx):
              "an account with two denominations, a 2-key multisig account), blocks of 1-4 txs. Core: every fee shape {equal, below, above, zero, "
              "two denominations, unsorted, duplicate, zero coin, other denomination only, above balance, 1, two denominations below, double} × "
              "{simple key, two-denomination account, multisig account, a message whose handler fails}; then random: 15 message kinds × signer "
-             "relation × ~12% signature defects × 60% non-standard fees × 5% resubmissions; second chain with fee multiplier 3. Per tx: dumped "
+             "relation × ~12% signature defects × 60% non-standard fees × 5% resubmissions; three chains: default multiplier 1, default multiplier 3, and per-type multipliers (send ×5, stake_validator ×2, default ×2). Per tx: dumped "
              "pre-state, real ante handler on a dropped cache, real DeliverTx, balances and a digest of every store. non-trivial = the real ante "
              "handler passed; distinct = distinct trace line")
     ctx.trust(*ante_common.COMMON_TRUST)
     ctx.assume("the tx indexer is fed with every block's results before the next block (the harness does what Tendermint's indexer service does)")
-    n = 4000 if ctx.thorough else 320
+    n = 4000 if ctx.thorough else 450
     ctx.stream("fees", "c15", DRIVER, n=n, timeout=3000, drv_timeout=3000)
     if ctx.thorough:
         for s in range(2):
